@@ -1298,6 +1298,11 @@ fn gen_c08(seed: u64, index: u64, tier: Tier) -> ResolvePlan {
             prune_before: r.chance(0.2),
         })
         .collect();
+    // now and then the process is held up between two clock reads (fault `clock.stall`;
+    // own random stream, the rest of the plan stays what it was)
+    if Rng::new(seed ^ 0xc10c_57a1_0000).chance(0.25) {
+        knobs.faults.insert("clock.stall".into(), 0.02);
+    }
     ResolvePlan {
         knobs,
         hints_auto: true,
